@@ -95,6 +95,41 @@ Section IOSup.
         p <- load tdim tsize valid_nested valid_embed dec b ;;
         generations r (fst p) cs
     end.
+
+  (* ---------------------------------------------------------------- *)
+  (* Path reuse: torch_frame.save(tf, stats, path) onto WHATEVER the path holds.
+     torch.save(obj, path) opens the path for writing, which truncates it
+     (OTrunc).  ONoTrunc is the other way a file can be opened for writing
+     (os.open(path, O_WRONLY | O_CREAT)): the new bytes overwrite the beginning
+     and the tail of a longer old file stays. *)
+  Inductive open_mode := OTrunc | ONoTrunc.
+
+  Definition write_file (m : open_mode) (old : option (list byte)) (new : list byte) : list byte :=
+    match m, old with
+    | ONoTrunc, Some o => new ++ skipn (List.length new) o
+    | _, _ => new
+    end.
+
+  (* one save onto the path; None = save raised (file untouched is not modelled further) *)
+  Definition save_to (m : open_mode) (f : option (list byte)) (t : tframe tensor) (cs : stats)
+    : option (option (list byte)) :=
+    option_map (fun b => Some (write_file m f b)) (save enc t cs).
+
+  (* several saves onto one and the same path, never removed in between *)
+  Fixpoint save_all (m : open_mode) (f : option (list byte)) (l : list (tframe tensor * stats))
+    : option (option (list byte)) :=
+    match l with
+    | [] => Some f
+    | (t, cs) :: r => f' <- save_to m f t cs ;; save_all m f' r
+    end.
+
+  Definition reuse_then_load (m : open_mode) (f : option (list byte)) (l : list (tframe tensor * stats))
+    : option (tframe tensor * stats) :=
+    f' <- save_all m f l ;;
+    match f' with
+    | Some b => load tdim tsize valid_nested valid_embed dec b
+    | None => None
+    end.
 End IOSup.
 
 Arguments EvS {tensor stats rows} sup e.
